@@ -2,6 +2,7 @@ package props
 
 import (
 	"fmt"
+	"go/ast"
 	"go/token"
 	"go/types"
 	"sort"
@@ -21,10 +22,12 @@ func init() {
 		Explanation: "Decided (necessary conditions, for every schedule): (R10.1) every access to the registry state (Store.moduleList/nameToModule/nameToModuleCap/typeIDs, ModuleInstance.prev/next), to the engines' compiled-module maps and to a table's keep-alive list happens with the guarding mutex held in a sufficient mode (must-lockset dataflow on SSA, helpers checked at all call sites); " +
 			"(R10.2) the two closed words are atomic values only ever read with Load or changed with CompareAndSwap; (R10.3) every call that releases an instance's resources is control-dependent on a successful CAS of its closed word (close-once, notification-once); " +
 			"(R10.4) every call that reaches Engine.CompileModule or Store.Instantiate from the public API is dominated by a passed runtime-closed check; (R10.5) the registry insert is dominated by the closed-store sentinel test and the name-taken test, delete unlinks and clears both list pointers, closing the store nils list and map. " +
-			"(R10.6) the head of the module list is replaced by m.next only under the test that m is the head, so closing an instance that was never linked (failed registration) leaves the list intact. NOT decided: linearizability of histories as such (ordering of effects across the several critical sections).",
+			"(R10.6) the head of the module list is replaced by m.next only under the test that m is the head, so closing an instance that was never linked (failed registration) leaves the list intact. (R10.7) every insert into a map that a close path sets to nil is dominated by a nil test of that map, so a request that overlaps the close fails with an error instead of panicking (genuine compiler defect found and fixed); (R10.8) the exit path of a call completes an asynchronous close also on the branch taken after a panic (genuine compiler defect found and fixed). NOT decided: linearizability of histories as such (ordering of effects across the several critical sections).",
 		Assumptions: []string{"table of guarded fields → guarding mutex is frozen in checker/props/c10.go from the declarations' comments and confirmed by reading all 60+ access sites"},
 		Rules: []core.Rule{
 			{ID: "R10.6", Template: "T-CONSULT", Text: "the module-list head is moved only for the instance that is the head", Min: 1},
+			{ID: "R10.7", Template: "T-MUSTPASS", Text: "every insert into a map that a close path nils is dominated by a nil test of it (genuine defect found and fixed: wazevo compile overlapping Close panicked)", Min: 3},
+			{ID: "R10.8", Template: "T-SIBLING", Text: "the exit path of a call completes an asynchronous close on every branch, also when the call ended in a panic (genuine compiler defect found and fixed)", Min: 2},
 			{ID: "R10.1", Template: "T-LOCKSET", Text: "every read of a guarded field holds its mutex (read or write mode), every write holds it in write mode; constructors writing a freshly allocated object are exempt", Min: 40},
 			{ID: "R10.2", Template: "T-WHOCALLS", Text: "closed words have an atomic type and are only accessed through Load and CompareAndSwap", Min: 2},
 			{ID: "R10.3", Template: "T-MUSTPASS", Text: "every call of the resource-release function is dominated by the success branch of a CAS on the instance's closed word (directly or through a wrapper that returns the CAS result)", Min: 3},
@@ -33,6 +36,8 @@ func init() {
 		},
 		Run: runC10,
 		Controls: []core.Control{
+			{Name: "compiled-module-insert-unguarded", File: "internal/engine/wazevo/engine_cache.go", Old: "\tif e.compiledModules == nil { // Close was called, possibly while this module was being compiled.\n\t\treturn errors.New(\"engine is already closed\")\n\t}\n", New: "\t_ = errors.New\n", Rule: "R10.7", Substr: "compiledModules"},
+			{Name: "compiler-panic-path-skips-close", File: "internal/engine/wazevo/call_engine.go", Old: "\t\t\t_ = c.parent.module.FailIfClosed()\n", New: "", Rule: "R10.8", Substr: "compiler"},
 			{Name: "head-moved-for-unlinked-instance", File: "internal/wasm/store_module_list.go", Old: "\tif m.prev != nil {\n\t\tm.prev.next = m.next\n\t}\n\tif m.next != nil {\n\t\tm.next.prev = m.prev\n\t}\n\tif s.moduleList == m {\n\t\ts.moduleList = m.next\n\t}\n", New: "\tif m.prev != nil {\n\t\tm.prev.next = m.next\n\t} else {\n\t\ts.moduleList = m.next\n\t}\n\tif m.next != nil {\n\t\tm.next.prev = m.prev\n\t}\n", Rule: "R10.6", Substr: "list head"},
 			{Name: "interp-close-unlocked", File: "internal/engine/interpreter/interpreter.go", Old: "func (e *engine) Close() (err error) {\n\te.mux.Lock()\n\tdefer e.mux.Unlock()\n", New: "func (e *engine) Close() (err error) {\n", Rule: "R10.1", Substr: "compiledFunctions"},
 			{Name: "register-reads-before-lock", File: "internal/wasm/store_module_list.go", Old: "func (s *Store) registerModule(m *ModuleInstance) error {\n\ts.mux.Lock()\n\tdefer s.mux.Unlock()\n\n\tif s.nameToModule == nil {\n\t\treturn errors.New(\"already closed\")\n\t}\n", New: "func (s *Store) registerModule(m *ModuleInstance) error {\n\tif s.nameToModule == nil {\n\t\treturn errors.New(\"already closed\")\n\t}\n\ts.mux.Lock()\n\tdefer s.mux.Unlock()\n", Rule: "R10.1", Substr: "nameToModule"},
@@ -113,6 +118,8 @@ func moduleFns(c *core.Ctx, rels ...string) []*ssa.Function {
 
 func runC10(c *core.Ctx) {
 	c.SSA()
+	checkClosedSentinelMaps(c)
+	checkExitPathCompletesClose(c)
 	// ---------- R10.1 lockset
 	type g struct{ rel, typ, field, muRel, muTyp, mu string }
 	table := []g{
@@ -895,5 +902,216 @@ func checkHeadUpdate(c *core.Ctx) {
 	}
 	if n == 0 {
 		c.Undecided("R10.6", "removal from the module list", 0, "no `moduleList = x.next` store found")
+	}
+}
+
+// ---------------------------------------------------------------------------------------------------------
+// R10.7: a map field that a close path sets to nil (the "closed" sentinel idiom) is tested for nil before every insert:
+// an operation that passed the runtime's closed check before Close ran must fail with an error, not panic on a nil map.
+
+func checkClosedSentinelMaps(c *core.Ctx) {
+	fns := moduleFns(c, "internal/wasm", wzv, "internal/engine/interpreter", "")
+	type key struct {
+		named *types.Named
+		field int
+	}
+	fieldOf := func(v ssa.Value) (key, ssa.Value, bool) {
+		ld, ok := v.(*ssa.UnOp)
+		if !ok || ld.Op != token.MUL {
+			return key{}, nil, false
+		}
+		fa, ok := ld.X.(*ssa.FieldAddr)
+		if !ok {
+			return key{}, nil, false
+		}
+		nm := core.NamedOf(fa.X.Type())
+		if nm == nil {
+			return key{}, nil, false
+		}
+		return key{nm, fa.Field}, fa.X, true
+	}
+	// fields nil-ed outside constructors
+	nilled := map[key]string{}
+	for _, fn := range fns {
+		for _, b := range fn.Blocks {
+			for _, in := range b.Instrs {
+				st, ok := in.(*ssa.Store)
+				if !ok {
+					continue
+				}
+				k, isK := st.Val.(*ssa.Const)
+				if !isK || !k.IsNil() {
+					continue
+				}
+				if _, isMap := st.Val.Type().Underlying().(*types.Map); !isMap {
+					continue
+				}
+				fa, ok := st.Addr.(*ssa.FieldAddr)
+				if !ok {
+					continue
+				}
+				if _, fresh := fa.X.(*ssa.Alloc); fresh {
+					continue
+				}
+				// only close entry points: a finalizer that nils the maps of an unreachable object cannot be followed by an insert
+				top := fn
+				for top.Parent() != nil {
+					top = top.Parent()
+				}
+				if !closeEntryNames[top.Name()] {
+					continue
+				}
+				if nm := core.NamedOf(fa.X.Type()); nm != nil {
+					nilled[key{nm, fa.Field}] = core.SSAFuncName(fn)
+				}
+			}
+		}
+	}
+	n := 0
+	for _, fn := range fns {
+		for _, b := range fn.Blocks {
+			for _, in := range b.Instrs {
+				mu, ok := in.(*ssa.MapUpdate)
+				if !ok {
+					continue
+				}
+				k, base, ok := fieldOf(mu.Map)
+				if !ok {
+					continue
+				}
+				closer, isSentinel := nilled[k]
+				if !isSentinel {
+					continue
+				}
+				n++
+				fname := k.named.Obj().Name() + "." + k.named.Underlying().(*types.Struct).Field(k.field).Name()
+				ok2 := guardedBy(b, func(cond ssa.Value) int {
+					bo, isB := cond.(*ssa.BinOp)
+					if !isB || (bo.Op != token.NEQ && bo.Op != token.EQL) {
+						return 0
+					}
+					for _, pair := range [][2]ssa.Value{{bo.X, bo.Y}, {bo.Y, bo.X}} {
+						kk, bb, isF := fieldOf(pair[0])
+						cst, isC := pair[1].(*ssa.Const)
+						if isF && isC && cst.IsNil() && kk == k && sameValue(bb, base) {
+							if bo.Op == token.NEQ {
+								return 1
+							}
+							return -1
+						}
+					}
+					return 0
+				})
+				c.Check(ok2, "R10.7", "insert into "+fname+" in "+core.SSAFuncName(fn)+" is guarded by the closed-sentinel test", mu.Pos(),
+					"dominated by the passed test "+fname+" != nil",
+					fname+" is set to nil by "+closer+" (closing), and this insert is not dominated by a nil test of it: a request that passed the runtime's closed check before the close panics with 'assignment to entry in nil map' instead of failing with an error")
+			}
+		}
+	}
+	c.Count("sentinel_map_inserts", n)
+	if n == 0 {
+		c.Undecided("R10.7", "inserts into maps nil-ed on close", 0, "none found")
+	}
+}
+
+// ---------------------------------------------------------------------------------------------------------
+// R10.8: with close-on-context-done the watcher only sets the closed word; releasing the instance's resources (and its
+// close notification) is left to the call in flight, whose exit path must therefore complete the close on every branch –
+// in particular on the branch taken when the call ended in a panic (trap, host panic).
+
+func checkExitPathCompletesClose(c *core.Ctx) {
+	for _, e := range []struct{ name, rel string }{{"interpreter", "internal/engine/interpreter"}, {"compiler", wzv}} {
+		p := c.Pkg(e.rel)
+		if p == nil {
+			continue
+		}
+		info := p.TypesInfo
+		found := false
+		core.AllFuncDecls(p, func(fd *ast.FuncDecl) {
+			startsWatcher := false
+			ast.Inspect(fd.Body, func(x ast.Node) bool {
+				if call, ok := x.(*ast.CallExpr); ok {
+					if f := core.Callee(info, call); f != nil && f.Name() == "CloseModuleOnCanceledOrTimeout" {
+						startsWatcher = true
+					}
+				}
+				return true
+			})
+			if !startsWatcher {
+				return
+			}
+			for _, s := range fd.Body.List {
+				ds, ok := s.(*ast.DeferStmt)
+				if !ok {
+					continue
+				}
+				fl, ok := ds.Call.Fun.(*ast.FuncLit)
+				if !ok {
+					continue
+				}
+				// the recovered value and the statement testing it
+				var recVar types.Object
+				var test *ast.IfStmt
+				for _, st := range fl.Body.List {
+					switch y := st.(type) {
+					case *ast.AssignStmt:
+						if len(y.Rhs) == 1 {
+							if call, ok := y.Rhs[0].(*ast.CallExpr); ok && core.IsBuiltin(info, call, "recover") {
+								if id, ok := y.Lhs[0].(*ast.Ident); ok {
+									recVar = info.Defs[id]
+								}
+							}
+						}
+					case *ast.IfStmt:
+						if as, ok := y.Init.(*ast.AssignStmt); ok && len(as.Rhs) == 1 {
+							if call, ok := as.Rhs[0].(*ast.CallExpr); ok && core.IsBuiltin(info, call, "recover") {
+								test = y
+							}
+						}
+						if be, ok := y.Cond.(*ast.BinaryExpr); ok && be.Op == token.NEQ && test == nil && recVar != nil {
+							if id, ok := be.X.(*ast.Ident); ok && info.Uses[id] == recVar {
+								if nl, ok := be.Y.(*ast.Ident); ok && nl.Name == "nil" {
+									test = y
+								}
+							}
+						}
+					}
+				}
+				if test == nil {
+					continue
+				}
+				found = true
+				calls := func(n ast.Node) bool {
+					r := false
+					if n == nil {
+						return false
+					}
+					ast.Inspect(n, func(x ast.Node) bool {
+						if call, ok := x.(*ast.CallExpr); ok {
+							if f := core.Callee(info, call); f != nil && f.Name() == "FailIfClosed" {
+								r = true
+							}
+						}
+						return true
+					})
+					return r
+				}
+				before := false
+				for _, st := range fl.Body.List {
+					if st == ast.Stmt(test) {
+						break
+					}
+					if calls(st) {
+						before = true
+					}
+				}
+				c.Check(before || calls(test.Body), "R10.8", e.name+": the exit path of "+fd.Name.Name+" completes a pending close also when the call ended in a panic", test.Pos(),
+					"FailIfClosed is called before the recovered value is tested, or in the branch handling it",
+					"FailIfClosed is only called when the call returned normally: a module closed asynchronously (close on context done) while its call in flight ends in a trap or host panic keeps the 'resources not closed' state for ever – no close notification, file system and allocator memory never released, Close is a no-op")
+			}
+		})
+		if !found {
+			c.Undecided("R10.8", e.name+": deferred exit path of the call entry", 0, "not found")
+		}
 	}
 }
